@@ -49,6 +49,8 @@ impl Select for VirtualSystem {
         timeout: Option<Duration>,
         signal_mask: Option<&Sigset>,
     ) -> impl Future<Output = Result<c_int>> + use<'a> {
+        #[cfg(feature = "verif-hooks")]
+        self.verif_tap("select");
         let this = self.clone();
         let signal_mask = signal_mask.map(|mask| mask.iter().copied().collect::<Vec<_>>());
         #[allow(clippy::await_holding_refcell_ref, reason = "false positive")]
